@@ -831,7 +831,9 @@ def create_logger(id_, parameters, arg):
         file_name = 'samples.csv'
 
     parameters2 = list(filter(lambda x: 'tree.ratios' != x, parameters))
-    models = ['joint', 'like', 'prior']
+    models = ['joint', 'like']
+    if not arg.poisson:
+        models.append('prior')
     if arg.coalescent:
         models.append('coalescent')
         if arg.coalescent in COALESCENT_PIECEWISE:
